@@ -28,6 +28,9 @@ EXTENDS Integers, Sequences, FiniteSets, TLC
 CONSTANTS
   Tables, Cols, Aliases, Dbs,      \* identifier vocabularies (sets of strings, none a keyword)
   IntLits, StrLits,                \* literal vocabularies
+  TrickyStrs,                      \* string literals whose content looks like something else: a keyword in some letter
+                                   \* case, an operator, punctuation, a number, nothing, a comment opener
+  QuotedIdents,                    \* identifiers that must be written in double quotes (keywords, blanks inside)
   VarcharLens, LimVals,            \* integers used in VARCHAR(n) and LIMIT / OFFSET
   BaseTable,                       \* the table used where a clause under study needs "some table"
   \* pools: the subsets that are combined exhaustively where the full product would explode
@@ -122,11 +125,12 @@ RECURSIVE NLeaves(_)
 NLeaves(c) == IF c.k \in {"and", "or"} THEN NLeaves(c.l) + NLeaves(c.r) ELSE 1
 
 \* the trees that text without parentheses can express
+OperandKinds == {"col", "int", "str", "bool"}
 RECURSIVE Expressible(_)
 Expressible(c) ==
   CASE c.k = "or"  -> c.l.k # "or" /\ Expressible(c.l) /\ Expressible(c.r)
     [] c.k = "and" -> c.l.k = "cmp" /\ c.r.k \in {"cmp", "and"} /\ Expressible(c.r)
-    [] c.k = "cmp" -> c.l \in Operands /\ c.r \in Operands /\ c.op \in CmpOps
+    [] c.k = "cmp" -> c.l.k \in OperandKinds /\ c.r.k \in OperandKinds /\ c.op \in CmpOps
     [] OTHER -> FALSE
 
 -----------------------------------------------------------------------------
@@ -160,7 +164,8 @@ StmtWF(s) == s.k = "select" => SelectWF(s)
 KW(w)     == [t |-> "KW", v |-> w, o |-> ""]
 OptKW(w)  == [t |-> "KW", v |-> w, o |-> "kw"]
 P(x)      == [t |-> "P", v |-> x, o |-> ""]
-Id(n)     == [t |-> "IDENT", v |-> n, o |-> ""]
+\* an identifier; written "n" (a delimited identifier) when it could not be written bare
+Id(n)     == [t |-> (IF n \in QuotedIdents THEN "QID" ELSE "IDENT"), v |-> n, o |-> ""]
 IntT(i)   == [t |-> "INT", v |-> ToString(i), o |-> ""]
 StrT(s)   == [t |-> "STR", v |-> s, o |-> ""]
 Raw(x)    == [t |-> "RAW", v |-> x, o |-> ""]      \* literal source text
@@ -200,7 +205,9 @@ LexClasses == {"dquote", "dq_unterminated", "dq_ident", "dq_empty", "dq_keyword"
 CoreVocab == {KW(w) : w \in Keywords} \cup {P(x) : x \in Puncts}
              \cup {Id(n) : n \in {BaseTable, "zz", "databases"}}
              \cup {IntT(i) : i \in {0, 7}} \cup {StrT(s) : s \in {"", "q r"}}
-FullVocab == CoreVocab \cup {Raw(x) : x \in RawTexts} \cup {Lex(c) : c \in LexClasses}
+\* quoted text that would be a keyword / operator / terminator without its quotes
+QuotedLookalikes == {StrT(x) : x \in {"true", "and", "select", "=", ";"}}
+FullVocab == CoreVocab \cup QuotedLookalikes \cup {Raw(x) : x \in RawTexts} \cup {Lex(c) : c \in LexClasses}
 
 -----------------------------------------------------------------------------
 (* The grammar: Toks                                                       *)
@@ -308,6 +315,8 @@ ComboJoins  == {NoC} \cup {<<JoinOf(jt, tb, ComboCond)>> : jt \in {"INNER", "LEF
 FixedCols(w) == CHOOSE f \in [1..w -> Cols] : \A i, j \in 1..w : i # j => f[i] # f[j]
 FixedRow(w)  == [i \in 1..w |-> CHOOSE v \in LitPool : TRUE]
 FixedAsg     == <<Asg(CHOOSE x \in Cols : TRUE, CHOOSE v \in LitPool : TRUE)>>
+PlainStr     == StrL(CHOOSE x \in StrLits : TRUE)
+PlainCol     == Col("", CHOOSE x \in Cols : TRUE)
 \* column names are taken in a fixed order; what varies is the number of columns and their types
 DefNames == CHOOSE f \in [1..MaxDefs -> Cols \cup Aliases \cup Tables \cup Dbs] : \A i, j \in 1..MaxDefs : i # j => f[i] # f[j]
 
@@ -315,7 +324,8 @@ SliceNames == {"sel_item_expr", "sel_item_leaf", "sel_item_tree", "sel_items", "
                "sel_from", "sel_on", "sel_where_leaf", "sel_where_tree",
                "sel_group_count", "sel_group_cols", "sel_group_alias", "sel_order", "sel_limit", "sel_combo",
                "ins_cols", "ins_row", "ins_rows", "upd_one", "upd_list", "upd_where_leaf", "upd_where_tree",
-               "del_all", "del_leaf", "del_tree", "create_table", "create_database", "use", "show", "given"}
+               "del_all", "del_leaf", "del_tree", "create_table", "create_database", "use", "show", "given",
+               "str_insert", "str_update", "str_cond", "str_item", "qid"}
 
 \* A slice is a family of sets indexed by a size (list length, number of leaves; for INSERT
 \* 10 * width + rows): SliceSizes(name) are the sizes within the bounds, Slice(name, n) one member.
@@ -375,6 +385,30 @@ Slice(name, n) ==
     [] name = "use"            -> {UseD(d) : d \in Dbs}
     [] name = "show"           -> {ShowD}
     [] name = "given"          -> Stmts
+    \* string literals that look like something else, in every place a literal can stand
+    [] name = "str_insert"     -> {Ins(BaseTable, NoC, <<<<StrL(x)>>>>) : x \in TrickyStrs}
+                                  \cup {Ins(BaseTable, NoC, <<<<PlainStr, StrL(x), PlainStr>>>>) : x \in TrickyStrs}
+                                  \cup {Ins(BaseTable, FixedCols(2), <<<<StrL(x), StrL(y)>>, <<StrL(y), IntL(ComboLim)>>>>) : x, y \in TrickyStrs}
+    [] name = "str_update"     -> {Upd(BaseTable, <<Asg(PlainCol.n, StrL(x))>>, IF wh THEN <<Cmp("=", PlainCol, StrL(x))>> ELSE NoC) : x \in TrickyStrs, wh \in BOOLEAN}
+                                  \cup {Upd(BaseTable, <<Asg(PlainCol.n, StrL(x)), Asg(PlainCol.n, StrL(y))>>, NoC) : x, y \in TrickyStrs}
+    [] name = "str_cond"       -> LET cs == {Cmp(op, PlainCol, StrL(x)) : op \in CmpOps, x \in TrickyStrs}
+                                           \cup {Cmp(op, StrL(x), PlainCol) : op \in CmpOps, x \in TrickyStrs}
+                                           \cup {AndN(Cmp("=", PlainCol, StrL(x)), Cmp("!=", StrL(y), PlainCol)) : x, y \in TrickyStrs}
+                                           \cup {OrN(Cmp("=", PlainCol, StrL(x)), Cmp("<", PlainCol, StrL(x))) : x \in TrickyStrs}
+                                  IN  {WhereSel(c) : c \in cs} \cup {Del(BaseTable, <<c>>) : c \in cs}
+                                      \cup {Sel(BaseItems, BaseFrom, <<JoinOf("LEFT", tb, c)>>, NoC, NoC, NoC, NoC, NoC) : tb \in JoinTblPool, c \in cs}
+    [] name = "str_item"       -> {SimpleSel(<<Item(StrL(x), al)>>) : x \in TrickyStrs, al \in AliasOpts}
+                                  \cup {SimpleSel(<<Item(Cmp("=", PlainCol, StrL(x)), al), Item(StrL(x), "")>>) : x \in TrickyStrs, al \in AliasOpts}
+                                  \cup {Sel(<<Item(StrL(x), "")>>, NoC, NoC, NoC, NoC, NoC, NoC, NoC) : x \in TrickyStrs}
+    \* delimited identifiers in every place an identifier can stand
+    [] name = "qid"            -> {Sel(<<Item(Col(qj, qi), al)>>, <<Tbl(qi, qj)>>, <<JoinOf("INNER", Tbl(qj, qi), Cmp("=", Col(qj, qi), Col(qi, qj)))>>,
+                                       <<Cmp("=", Col("", qi), StrL(qi))>>, <<Col(qj, qi)>>, <<Ord(Col("", qi), "DESC")>>, NoC, NoC) :
+                                      qi \in QuotedIdents, qj \in QuotedIdents, al \in {""} \cup QuotedIdents}
+                                  \cup {Ins(qi, <<qj>>, <<<<StrL(qi)>>>>) : qi \in QuotedIdents, qj \in QuotedIdents}
+                                  \cup {Upd(qi, <<Asg(qj, StrL(qi))>>, <<Cmp("=", Col(qi, qj), IntL(ComboLim))>>) : qi \in QuotedIdents, qj \in QuotedIdents}
+                                  \cup {Del(qi, NoC) : qi \in QuotedIdents}
+                                  \cup {CreT(qi, <<Def(qj, Ty("INT", 0)), Def(qi, Ty("VARCHAR", ComboLim + 1))>>) : qi \in QuotedIdents, qj \in QuotedIdents}
+                                  \cup {CreD(qi) : qi \in QuotedIdents} \cup {UseD(qi) : qi \in QuotedIdents}
 
 \* membership in the universe a configuration works with
 InUniverse(names, s) == StmtWF(s) /\ \E nm \in names : \E n \in SliceSizes(nm) : s \in Slice(nm, n)
@@ -438,7 +472,7 @@ Spec == Pick /\ [][Next]_vars
 -----------------------------------------------------------------------------
 (* Properties of the machine itself                                        *)
 
-TokenOK(tk) == /\ tk.t \in {"KW", "P", "IDENT", "INT", "STR", "RAW", "LEX"}
+TokenOK(tk) == /\ tk.t \in {"KW", "P", "IDENT", "QID", "INT", "STR", "RAW", "LEX"}
                /\ tk.o \in {"", "kw", "term", "legacy"}
 TypeOK == /\ ast.k \in StmtKinds /\ StmtWF(ast) /\ form \in Forms(ast)
           /\ \A i \in DOMAIN toks : TokenOK(toks[i])
